@@ -41,6 +41,9 @@ fn mk_c08() -> Vec<Box<dyn Monitor>> {
 fn mk_c17() -> Vec<Box<dyn Monitor>> {
     vec![Box::new(mon::c17::C17)]
 }
+fn mk_c10() -> Vec<Box<dyn Monitor>> {
+    vec![Box::new(mon::c10::C10)]
+}
 fn mk_c06() -> Vec<Box<dyn Monitor>> {
     vec![Box::new(mon::swaps::C06)]
 }
@@ -108,6 +111,16 @@ fn specs() -> Vec<CheckSpec> {
         mk: mk_c17,
         level: "exploration",
         rule: "three pools over three mints (all four direction combinations arise), a router actor quoting on a stale view, plus LPs/traders/keeper under the same faults; every landed two-hop (v1, v2; successful or not) is replayed on a fork of its pre-state as its two single swaps with the second leg's input equal to the first leg's output (exact-out: intermediate amount learned on a scratch fork); success <=> both legs succeed with matching intermediate amount, distinct pools, shared mint and threshold met; on success all pool-side bytes (pools, tick arrays, oracles, vaults) and the trader's balances must be equal; a case is one (instruction, mode, directions, outcome, singles outcome, limits) tuple",
+        quick_runs: 300,
+        thorough_secs: 600,
+        assumptions: COMMON_ASSUMPTIONS,
+    },
+    CheckSpec {
+        id: "C10",
+        profile: Profile::Core,
+        mk: mk_c10,
+        level: "exploration",
+        rule: "HIST for every landed swap (v1, v2, two-hop legs) the ticks the trace reports as crossed must be exactly the initialized ticks (bounds of positions with liquidity) between the current tick before and after, in price order, each once, with the liquidity after each crossing implied by the positions; half of the single swaps are replayed on forks under packaging faults: tick arrays permuted, duplicated/omitted (same result or failure), passed as v2 supplemental arrays with irrelevant arrays in the main slots, merely-named arrays created empty (fixed or dynamic), an array of another pool substituted (must fail); a case is one (instruction, direction, #crossed, shifted start, edge slot crossed, spacing, zero liquidity) tuple",
         quick_runs: 300,
         thorough_secs: 600,
         assumptions: COMMON_ASSUMPTIONS,
